@@ -21,8 +21,8 @@ from jinja2 import nodes
 from .. import core
 from ..constraints import CONSTRAINTS, table as constraint_table
 from ..pymodel import PyModel
-from ..pyscope import unbound_globals, dunder_all, PURE_HOLE
-from ..tmodel import TemplateSet, cover, SymDict, Sym, root_of
+from ..pyscope import unbound_globals, dunder_all, PURE_HOLE, ScopeChecker, module_bindings
+from ..tmodel import TemplateSet, cover, SymDict, Sym, root_of, render, Infeasible, f_atoms, f_eval, f_and
 from ..tyenv import TyEnv
 
 PY_SUFFIX = ".py.j2"
@@ -80,6 +80,13 @@ def sample_profiles(pm: PyModel):
 def _summ_val(sk):
     f = sk.valuation.forced
     return {k: v for k, v in list(f.items())[:12]}
+
+
+def conj(guards):
+    f = ("c", True)
+    for g in guards:
+        f = f_and(f, g)
+    return f
 
 
 def subterms(t):
@@ -203,6 +210,8 @@ def analyse_template(args):
     seen_use = set()
     typed_steps = 0
     nvar = 0
+    bind_guards, use_guards = {}, {}
+    profile_roots = {}
     for pname, (variants, stats) in runs:
         out["stats"]["runs"] += stats["runs"]
         out["stats"]["sites_outcomes"] += stats["sites_outcomes"]
@@ -259,8 +268,19 @@ def analyse_template(args):
             if name.startswith("tests/"):
                 continue  # name binding inside emitted tests is C13's concern (not applicable), see DESIGN
             tree = sk.tree()
-            un, bound, reads = unbound_globals(tree)
+            sc = ScopeChecker(tree)
+            un, bound, reads = sc.run(), sc.module_bound, sc.global_reads
             out["global_reads"] += reads
+            # guard formulas of conditional bindings and of uses, for the implication search below
+            for nm, st in module_bindings(tree):
+                if PURE_HOLE.fullmatch(nm):
+                    continue
+                g = sk.guards_of_node(st)
+                bind_guards.setdefault((pname, sk.describe(nm)), set()).add(g)
+            for nm, node in sc.global_read_nodes:
+                if PURE_HOLE.fullmatch(nm):
+                    continue
+                use_guards.setdefault((pname, sk.describe(nm)), {}).setdefault(sk.guards_of_node(node), sk.where(node))
             for nm, node in un:
                 w = sk.where(node)
                 out["unbound"].append((w[0], w[1], sk.describe(nm), nm, val))
@@ -271,6 +291,55 @@ def analyse_template(args):
                 if nm not in bound:
                     w = sk.where(node)
                     out["all_unbound"].append((w[0], w[1], sk.describe(nm), val))
+    # ---- implication search (C01.3b): does every guard under which a name is used imply a guard under which it is bound?
+    out["implications"] = 0
+    out["unbound_by_implication"] = []
+    if is_py and not name.startswith("tests/"):
+        import itertools
+        reported = {(d, n) for (_, _, d, n, _) in out["unbound"]}
+        for (pname, dname), uses in use_guards.items():
+            binds = bind_guards.get((pname, dname))
+            if not binds or () in binds:
+                continue   # never bound at module level (local / attribute) or bound unconditionally
+            bformulas = [conj(g) for g in binds]
+            for ug, w in uses.items():
+                uf = conj(ug)
+                atoms = sorted(set().union(f_atoms(uf), *[f_atoms(b) for b in bformulas]))
+                if not atoms or len(atoms) > 12:
+                    continue
+                out["implications"] += 1
+                tried = 0
+                for vals in itertools.product((True, False), repeat=len(atoms)):
+                    env = dict(zip(atoms, vals))
+                    try:
+                        if not f_eval(uf, env) or any(f_eval(b, env) for b in bformulas):
+                            continue
+                    except KeyError:
+                        continue
+                    forced = {}
+                    for a, v in env.items():
+                        forced[a] = (1 if v else 0) if a.startswith("LOOP:") else v
+                    cr = None
+                    if pname and pname.startswith("transport="):
+                        cr = {"opts": SymDict("opts", transport=pname[len("transport="):].split("+"))}
+                    elif profile:
+                        cr = profile[1]
+                    tried += 1
+                    if tried > 6:
+                        break
+                    try:
+                        sk2 = render(ts, name, forced=forced, default=True, constraints=CONSTRAINTS, const_roots=cr, known_roots=roots)
+                    except Infeasible:
+                        continue
+                    if sk2.tree() is None:
+                        continue
+                    un2, _, _ = unbound_globals(sk2.tree())
+                    hit = [(n2, nd) for n2, nd in un2 if sk2.describe(n2) == dname]
+                    if hit and (dname, hit[0][0]) not in reported and (os.path.basename(name), hit[0][0]) not in NAME_EXCEPTIONS:
+                        w2 = sk2.where(hit[0][1])
+                        out["unbound_by_implication"].append((w2[0], w2[1], dname, {k: v for k, v in forced.items()}))
+                        reported.add((dname, hit[0][0]))
+                        break
     out["typed_steps"] = typed_steps
     out["ty_stats"] = ty.stats
     out["n_variants"] = nvar
@@ -439,6 +508,12 @@ def run(report: core.Report):
                 continue
             r3.violation(ts_path(tmpl), line, f"global name {dname} (emitted by {name})",
                          f"name '{dname}' is read but no import/def/assignment binds it at module level in this variant",
+                         valuation=val, entry_template=name)
+        r3.instance(n=res.get("implications", 0))
+        r3.ok(res.get("implications", 0))
+        for tmpl, line, dname, val in res.get("unbound_by_implication", []):
+            r3.violation(ts_path(tmpl), line, f"global name {dname} (emitted by {name})",
+                         f"name '{dname}' is used under a guard that does not imply any guard under which it is bound: unbound for the valuation shown",
                          valuation=val, entry_template=name)
         for tmpl, line, dname, val in res["all_unbound"]:
             r3.violation(ts_path(tmpl), line, f"__all__ entry {dname} (emitted by {name})",
